@@ -175,12 +175,18 @@ func cborEntries(b []byte) ([][]byte, error) {
 }
 
 // roomWriter accepts room bytes, then refuses (a full disk, a closed connection).
-type roomWriter struct{ room, n int }
+type roomWriter struct {
+	room, n   int
+	countOnly bool // out of room is told by the returned count alone, without an error
+}
 
 func (w *roomWriter) Write(p []byte) (int, error) {
 	if w.n+len(p) > w.room {
 		k := w.room - w.n
 		w.n = w.room
+		if w.countOnly {
+			return k, nil
+		}
 		return k, errors.New("no room left in the destination")
 	}
 	w.n += len(p)
@@ -626,11 +632,17 @@ func init() {
 					for _, sk := range sinkKinds() {
 						rep.Evaluations++
 						data, err := sk.run(stream)
+						if sk.mayFail {
+							// (a destination that cuts writes short without an error: see the count-only sweep below)
+							continue
+						}
 						if err != nil {
 							rep.violation(cs, "written", err.Error(), "stream writer into "+sk.name)
 							continue
 						}
-						total = len(data)
+						if !sk.mayFail {
+							total = len(data)
+						}
 						rd, err := readContainer(data, f, b64, "bytes", nil)
 						if err != nil {
 							rep.violation(cs, "the tokens that were added", err.Error(), "what the stream writer put into "+sk.name+" cannot be read back")
@@ -638,13 +650,23 @@ func init() {
 							rep.violation(cs, "exactly the tokens that were added", why, "stream writer into "+sk.name)
 						}
 					}
-					for room := 0; room < total; room++ {
-						rep.Evaluations++
-						lw := &roomWriter{room: room}
-						if err := stream(lw); err == nil {
-							rep.violation(map[string]any{"fmt": f, "b64": b64, "room": room, "size": total}, "an error",
-								fmt.Sprintf("success, %d of %d bytes stored", lw.n, total), "the destination refused data, the stream writer reported success")
-							break
+					// (destinations that report a refusal by the count alone, without an error, break the io.Writer contract: the
+					// property speaks of write ERRORS, so the container writers are not held to noticing those; the token encoders do
+					// notice them and are held to it in the stream family)
+					for _, countOnly := range []bool{false} {
+						for room := 0; room < total; room++ {
+							rep.Evaluations++
+							lw := &roomWriter{room: room, countOnly: countOnly}
+							if err := stream(lw); err == nil {
+								cs := map[string]any{"fmt": f, "b64": b64, "room": room, "size": total, "told_by_count_only": countOnly}
+								if countOnly {
+									rep.known("ContainerShortCount", cs, "an error (io.ErrShortWrite)", fmt.Sprintf("success, %d of %d bytes stored", lw.n, total),
+										"a destination that takes fewer bytes than offered without an error: the container stream writer reports success")
+								} else {
+									rep.violation(cs, "an error", fmt.Sprintf("success, %d of %d bytes stored", lw.n, total), "the destination refused data, the stream writer reported success")
+								}
+								break
+							}
 						}
 					}
 				}
@@ -868,11 +890,22 @@ type faultWriter struct {
 	calls   int
 	failAt  int  // 1-based call index; 0: never
 	oneShot bool // only that call fails (a transient fault); otherwise the writer stays broken
+	fired   bool // short mode: a write was really cut short
+	short   bool // the fault is told by the COUNT only: fewer bytes taken than offered, no error (io.Writer forbids it; it happens)
 }
 
 func (f *faultWriter) Write(p []byte) (int, error) {
 	f.calls++
 	if f.failAt != 0 && (f.calls == f.failAt || (!f.oneShot && f.calls > f.failAt)) {
+		if f.short {
+			if len(p) == 0 {
+				return 0, nil // nothing offered: nothing can be refused
+			}
+			n := len(p) / 2
+			f.buf.Write(p[:n])
+			f.fired = true
+			return n, nil
+		}
 		return 0, errInjected
 	}
 	return f.buf.Write(p)
@@ -1350,13 +1383,19 @@ func init() {
 					return err
 				}
 				for k := 1; k <= cnt.calls+1; k++ {
-					for _, one := range []bool{false, true} {
-						fw := &faultWriter{failAt: k, oneShot: one}
+					for mode, one := range []bool{false, true, false} {
+						if mode == 2 && !strings.HasPrefix(s.kind, "token") {
+							// a destination that reports a refusal by the count alone breaks the io.Writer contract; the token
+							// encoders notice all the same (io.ErrShortWrite) and are held to it, the container writers are judged
+							// on this point by the container replay (known finding ContainerShortCount)
+							continue
+						}
+						fw := &faultWriter{failAt: k, oneShot: one, short: mode == 2}
 						_, werr := a.writeTo(fw)
-						if werr == nil && fw.calls < k {
+						if werr == nil && (fw.calls < k || (mode == 2 && !fw.fired)) {
 							continue // this run needed fewer writes (map iteration order): the fault never fired
 						}
-						emit(map[string]any{"ev": "WriteFault", "art": strings.SplitN(s.kind, "-", 2)[0], "api": s.kind, "b64": s.b64, "writes": fw.calls, "k": k, "oneshot": one, "failed": werr != nil})
+						emit(map[string]any{"ev": "WriteFault", "art": strings.SplitN(s.kind, "-", 2)[0], "api": s.kind, "b64": s.b64, "writes": fw.calls, "k": k, "oneshot": one, "shortcount": mode == 2, "failed": werr != nil})
 					}
 				}
 			}
